@@ -17,7 +17,7 @@ def run(chk, args):
     q = chk.tier == "quick"
     chk.model_check("MC_Generators", "MC_Generators.cfg")
     summ = vlib.run_driver("drv_generators", ["--out", str(chk.wd / "gen"), "--seed", str(chk.seed), "--ns", "3,4,5,6" if q else "3,4,5,6,7,8",
-                                              "--seeds", "24,16,6,3" if q else "160,120,60,40,30,20"], chk.wd, timeout=3400)
+                                              "--seeds", "96,48,12,6,3" if q else "400,240,80,40,30,20"], chk.wd, timeout=3400)
     for f in summ["files"]:
         validate_file(chk, Path(f["path"]), f["n"], {"C10"}, "generators", spec="Trace_Generators")
         chk.traces += f["traces"]
